@@ -45,6 +45,7 @@ func astCoq(n *parser.ASTNode) string {
 }
 
 func coqCase(e *Exec, in *Input, obs []Obs) string {
+	curASTs = e.asts
 	var sb strings.Builder
 	sb.WriteString("CSched [")
 	for wi, bulks := range in.Bulks {
@@ -198,7 +199,67 @@ func classify(in *Input, obs []Obs) (string, bool, []string) {
 	if sui > 0 {
 		counts = append(counts, "suicide")
 	}
-	return "sched", overlap || sealMid || retry, counts
+	return findingClass(in, obs), overlap || sealMid || retry, counts
+}
+
+// evalAST is the meaning of a parsed query on a document's token set.
+func evalAST(n *parser.ASTNode, toks map[int]bool) bool {
+	switch v := n.Value.(type) {
+	case *parser.Logical:
+		switch parser.VerifLogicalOp(v) {
+		case parser.VerifNot:
+			return !evalAST(n.Children[0], toks)
+		case parser.VerifAnd:
+			return evalAST(n.Children[0], toks) && evalAST(n.Children[1], toks)
+		case parser.VerifOr:
+			return evalAST(n.Children[0], toks) || evalAST(n.Children[1], toks)
+		case parser.VerifNAnd:
+			return !evalAST(n.Children[0], toks) && evalAST(n.Children[1], toks)
+		}
+	case *parser.Literal:
+		return toks[int(v.Terms[0].Data[0]-'a')+1]
+	}
+	return false
+}
+
+var curASTs []*parser.ASTNode
+
+// findingClass names the case after the defect it exhibits (the fingerprint under which the check reports
+// it); "sched" otherwise. The verdict itself is the Coq spec checker's, not this function's.
+func findingClass(in *Input, obs []Obs) string {
+	toksOf := map[[2]uint64]map[int]bool{}
+	for _, bs := range in.Bulks {
+		for _, b := range bs {
+			for _, d := range b {
+				m := map[int]bool{}
+				for _, t := range d.Toks {
+					m[t] = true
+				}
+				toksOf[[2]uint64{d.MID, d.RID}] = m
+			}
+		}
+	}
+	curQ := map[int]int{}
+	for i, l := range in.Labels {
+		o := obs[i]
+		if l.K == "SB" {
+			curQ[l.T] = l.Q
+		}
+		if o.K == "err" && strings.Contains(o.Msg, "index out of range") {
+			return "fetch-stale-blocks-panic"
+		}
+		if o.K == "err" && strings.Contains(o.Msg, "nil pointer") {
+			return "suicided-proxy-nil-deref"
+		}
+		if o.K == "res" && (l.K == "SB" || l.K == "R") {
+			for _, id := range o.IDs {
+				if t, ok := toksOf[id]; ok && !evalAST(curASTs[curQ[l.T]], t) {
+					return "search-negation-midbulk"
+				}
+			}
+		}
+	}
+	return "sched"
 }
 
 // ---------------------------------------------------------------- random schedules
